@@ -438,6 +438,12 @@ def r17_3(chk, mod, nrows, ncolors):
                            expected=f"a dominating guard implying 0 <= {idx} <= {lens[tab] - 1}",
                            found=f"implied bounds [{_b(lo)}, {_b(hi)}]" +
                                  (f"; unguarded constructor sites: {ctor_sites}" if inv_used and not ctor_ok else ""))
+                    if ok and not inv_used:
+                        # ... and to nothing narrower: every row of the table can be reached (a guard `n >= 103` instead of `n > 103`
+                        # turns the last element away)
+                        chk.ob("R17.3", MOD, qual, f"the guard on index {idx} into {tab} admits every row 0..{lens[tab] - 1} (it rejects nothing that is in "
+                               "the table)", lo == 0 and hi == lens[tab] - 1, node=e.node, fingerprint=f"guard-total:{tab}:{idx}",
+                               expected=f"implied bounds [0, {lens[tab] - 1}]", found=f"implied bounds [{_b(lo)}, {_b(hi)}]")
     chk.need(ninst >= 3, f"expected >= 3 table subscripts in {MOD}, found {ninst}")
 
 
@@ -863,6 +869,17 @@ def r17_7(chk, mod, params, nrows=103):
         if rets and len(deleg) == len(rets):
             chk.ob("R17.7", rel, qq, "the formula is chemical_formula(self.elements): one implementation of 'carbon first, then atomic number, every atom once'",
                    True, fingerprint="formula-delegates")
+            # every non-empty object gets its formula: a placeholder text is returned for the empty one only
+            narrow = []
+            for r in deleg:
+                for c, pol in r.guards:
+                    k = c.key()
+                    if pol and k in ("(lt 0 len(self))", "len(self)", "(lt 0 len(self.elements))", "len(self.elements)") or \
+                            (not pol and k in ("(eq 0 len(self))", "(eq len(self) 0)")):
+                        continue
+                    narrow.append(f"{'' if pol else 'not '}{c}")
+            chk.ob("R17.7", rel, qq, "the formula is computed for every non-empty object (a placeholder only for no atoms at all)", not narrow,
+                   fingerprint="formula-nonempty", found=narrow[:2])
             continue
         # another implementation: a recognised wrong idiom is reported, anything else cannot be decided here
         swaps = [e for e in ev2.events if e.kind == "store" and e.target.as_atom() and e.target.as_atom()[0] == "sub" and len(e.target.as_atom()[2]) == 1
